@@ -1,4 +1,170 @@
+import Iauthd.Addr.Spec
 import Drv.Util
-def main (_args : List String) : IO UInt32 := do
-  IO.eprintln "driver not implemented yet"
-  return 2
+/-
+  drv_addr model|pinned        < ops                    one record per op line (harness syntax)
+  drv_addr spec                < ops                    the functional parts of the spec
+  drv_addr judge C12|C13       < "op<TAB>record" lines  `ok …` / `FAIL <clause> …` per line
+-/
+open Iauthd Iauthd.Addr
+
+namespace Drv.AddrDrv
+
+def hexNat? (s : String) : Option Nat :=
+  if s.isEmpty then none else
+  s.toList.foldl (fun acc c => match acc, Bytes.hexVal c with
+    | some a, some v => some (a * 16 + v)
+    | _, _ => none) (some 0)
+
+def groups? (fs : List String) : Option Addr :=
+  if fs.length ≠ 8 then none else
+  match allSome (fs.map hexNat?) with
+  | some gs => if gs.all (· < 65536) then some (Addr.ofList gs) else none
+  | none => none
+
+def hexOfNat (n : Nat) : String := String.ofList (Nat.toDigits 16 n)
+
+def showGroups (a : Addr) : String := " ".intercalate (a.toNats.map hexOfNat)
+
+def showFault : Fault → String
+  | .oob site i => s!"fault oob {site} {i}"
+  | .nullDeref site => s!"fault null {site}"
+  | .fuel site => s!"fault fuel {site}"
+
+def showPton : M PtonRes → String
+  | .error f => showFault f
+  | .ok r =>
+    if r.uninit then s!"p {r.ret} uninit"
+    else s!"p {r.ret} {showGroups r.addr} {match r.bits with | none => "-" | some b => toString b}"
+
+def flags? (f : String) : Option (Bool × Bool) :=
+  match f.toList with
+  | ['b', b, 't', t] =>
+    if (b == '0' || b == '1') && (t == '0' || t == '1') then some (b == '1', t == '1') else none
+  | _ => none
+
+/-- the C string inside a hex-encoded byte string -/
+def cstrOfHex (h : String) : Option Bytes :=
+  if h == "-" then none else some (Bytes.cstr (Bytes.ofHex h))
+
+def modelLine (pinned : Bool) (line : String) : String :=
+  let ntopF := if pinned then ntopPinned else ntop
+  match fields line with
+  | "ntop" :: rest =>
+    if rest.length ≠ 9 then "bad-op" else
+    match groups? (rest.take 8), (rest.getD 8 "").toNat? with
+    | some a, some sz =>
+      if sz == 0 || sz > 4096 then "bad-op" else
+      let (t, r) := ntopF a sz
+      s!"n {r} {Bytes.toHex t}"
+    | _, _ => "bad-op"
+  | ["pton", fl, h] =>
+    match flags? fl, cstrOfHex h with
+    | some (wb, tr), some s => showPton (pton s wb tr)
+    | _, _ => "bad-op"
+  | "mask" :: rest =>
+    if rest.length ≠ 17 then "bad-op" else
+    match groups? (rest.take 8), groups? ((rest.drop 8).take 8), (rest.getD 16 "").toNat? with
+    | some a, some m, some n => s!"m {if checkMask a m (n % 4294967296) then 1 else 0}"
+    | _, _, _ => "bad-op"
+  | ["libc", h] => if h == "-" then "bad-op" else "l"
+  | "rt" :: rest =>
+    match groups? rest with
+    | some a =>
+      let (t, r) := ntopF a 40
+      match pton t false false with
+      | .error f => showFault f
+      | .ok p =>
+        let (t2, r2) := ntopF p.addr 40
+        s!"r {r} {Bytes.toHex t} {p.ret} {showGroups p.addr} {r2} {Bytes.toHex t2}"
+    | none => "bad-op"
+  | _ => "bad-op"
+
+def showRef : Option Addr → String
+  | some a => s!"l 1 {showGroups a}"
+  | none => "l 0 0 0 0 0 0 0 0 0"
+
+def specLine (line : String) : String :=
+  match fields line with
+  | "mask" :: rest =>
+    match groups? (rest.take 8), groups? ((rest.drop 8).take 8), (rest.getD 16 "").toNat? with
+    | some a, some m, some n => s!"m {if prefixEq a m n then 1 else 0}"
+    | _, _, _ => "bad-op"
+  | ["libc", h] => match cstrOfHex h with
+    | some s => showRef (refParse s)
+    | none => "bad-op"
+  | _ => "-"
+
+def verdict : Option String → String
+  | none => "ok"
+  | some e => "FAIL " ++ e
+
+def judgeLine (prop : String) (line : String) : String :=
+  match line.splitOn "\t" with
+  | [op, rec] =>
+    if rec == "<missing>" then "skip" else
+    if rec.startsWith "fault" then "FAIL fault " ++ rec else
+    let r := fields rec
+    match fields op with
+    | "rt" :: gs =>
+      if prop != "C12" then "ok" else
+      -- r ret text pret pg0..pg7 ret2 text2 | lok lg0..lg7
+      if r.length ≠ 24 then "FAIL malformed-record" else
+      match groups? gs, (r.getD 1 "").toNat?, (r.getD 3 "").toNat?, groups? ((r.drop 4).take 8),
+            groups? ((r.drop 16).take 8) with
+      | some a, some ret, some pret, some pa, some la =>
+        verdict (c12Check a ret (Bytes.ofHex (r.getD 2 "")) pret pa (r.getD 15 "" == "1") la
+                  (Bytes.ofHex (r.getD 13 "")))
+      | _, _, _, _, _ => "FAIL malformed-record"
+    | "ntop" :: rest =>
+      if prop != "C12" then "ok" else
+      match groups? (rest.take 8), (rest.getD 8 "").toNat?, (r.getD 1 "").toNat? with
+      | some a, some sz, some ret =>
+        if r.getD 2 "" == "unterminated" then "FAIL unterminated" else
+        verdict (c12NtopCheck a sz ret (Bytes.ofHex (r.getD 2 "")))
+      | _, _, _ => "FAIL malformed-record"
+    | "mask" :: rest =>
+      if prop != "C13" then "ok" else
+      match groups? (rest.take 8), groups? ((rest.drop 8).take 8), (rest.getD 16 "").toNat? with
+      | some a, some m, some n => verdict (c13MaskCheck a m n (r.getD 1 "" == "1"))
+      | _, _, _ => "FAIL malformed-record"
+    | ["pton", fl, h] =>
+      if prop != "C13" then "ok" else
+      match flags? fl, cstrOfHex h with
+      | some (wb, tr), some s =>
+        if r.getD 2 "" == "uninit" then "ok uninit" else
+        match (r.getD 1 "").toNat?, groups? ((r.drop 2).take 8) with
+        | some ret, some addr =>
+          let bits := (r.getD 10 "-").toNat?
+          let tag := (if (refParse s).isSome then " plain" else if (docParse s).isSome then " doc" else " free")
+            ++ (if ret == 0 then " rej" else if ret == s.length then " acc" else " part")
+          match c13PtonCheck s wb tr ret addr bits with
+          | none => "ok" ++ tag
+          | some e => "FAIL " ++ e
+        | _, _ => "FAIL malformed-record"
+      | _, _ => "FAIL malformed-record"
+    | ["libc", h] =>
+      -- the oracle itself: glibc and the reference grammar must agree
+      match cstrOfHex h with
+      | some s => if showRef (refParse s) == rec then "ok" else "FAIL reference-grammar-vs-libc " ++ showRef (refParse s)
+      | none => "FAIL malformed-record"
+    | _ => if rec == "bad-op" then "ok" else "FAIL malformed-record"
+  | _ => if line.startsWith "case " then line else "FAIL malformed-line"
+
+end Drv.AddrDrv
+
+open Drv Drv.AddrDrv in
+def main (args : List String) : IO UInt32 := do
+  let mode := args.headD "model"
+  let f : String → String ←
+    match mode with
+    | "model" => pure (modelLine false)
+    | "pinned" => pure (modelLine true)
+    | "spec" => pure specLine
+    | "judge" => pure (judgeLine (args.getD 1 "C12"))
+    | _ => do IO.eprintln "usage: drv_addr model|pinned|spec|judge <Cnn>"; return 2
+  let lines ← readLines
+  let mut out : Array String := Array.mkEmpty lines.size
+  for l in lines do
+    out := out.push (if l.startsWith "case " then l else f l)
+  emit (← IO.getStdout) out
+  return 0
